@@ -72,6 +72,8 @@ def build_storage(env, kind, names, m, store_targets=True, cap=None, stem='row',
 # ---- tracker state injection --------------------------------------------------------------------
 
 def _inject_tracker(env, tr, stem, N, nonneg=False):
+    from .common import check_state_coverage
+    check_state_coverage(tr)
     val = env.real(f"{stem}_val")
     tr.N = N
     tr.tracked_value = val
@@ -105,6 +107,10 @@ def inject_explainer_state(env, ex, names, labels, sage=True, efficiency_inv=Tru
     Invariant assumed: all trackers share the update count N >= 0 (and, being deep copies of one base tracker,
     the same alpha); variances >= 0; for SAGE with efficiency_inv: sum_f importance_f = marginal - model.
     """
+    from .common import check_state_coverage
+    check_state_coverage(ex)
+    for mv in (ex._importance_trackers, ex._variance_trackers, ex._marginal_prediction_tracker):
+        check_state_coverage(mv)
     N = env.int('N')
     env.assume(N >= 0)
     pre = {'N': N}
